@@ -1,6 +1,6 @@
 // Concurrent stress harness for C19 (spec/Trace_Concurrent.tla, spec/Concurrent.tla).
 //   stress_concurrent <kind> <readers> <ops> <seed> <out.ndjson|->      (appends one execution)
-// kinds: sv sov avg var ckeq ckgt cklt rel rm rceq rcgt
+// kinds: sv svw sov avg var ckeq ckgt cklt rel rm rceq rcgt
 // Built twice: with -DVERIF_TRACE and -Wl,--wrap=pthread_mutex_lock,--wrap=pthread_mutex_unlock it
 // records inv/lock/unlock/res events ordered by one global atomic sequence number; without it
 // (and with -fsanitize=thread) it is the same workload for ThreadSanitizer, out = "-".
@@ -146,12 +146,32 @@ static void runSV(Work & w)
   footprint(sv);
   w.bufs.reserve(16);
   w.spawn([&](vh::Rng &) {
-      for (long long k = 1; k <= w.ops; ++k) {inv(STORE, k); sv.store(Pair{k, ~k}); res(STORE);}
+      for (long long k = 1; k <= w.ops; ++k) {inv(STORE, k); if (k % 2) {sv.store(Pair{k, ~k});} else {sv = Pair{k, ~k};} res(STORE);}
       w.stop = true;
     });
   for (int i = 0; i < w.readers; ++i) {
     w.spawn([&](vh::Rng &) {
-        while (!w.stop) {inv(LOAD); Pair p = sv.load(); res(LOAD, p.a, p.b != ~p.a);}
+        long long n = 0;
+        while (!w.stop) {inv(LOAD); Pair p = (++n % 2) ? sv.load() : static_cast<Pair>(sv); res(LOAD, p.a, p.b != ~p.a);}
+      });
+  }
+  w.join();
+  w.resetLine = reset("sv", w.nthreads);
+}
+
+static void runSVW(Work & w)
+{
+  static SharedVariable<long long> sv;
+  footprint(sv);
+  w.bufs.reserve(16);
+  w.spawn([&](vh::Rng &) {
+      for (long long k = 1; k <= w.ops; ++k) {inv(STORE, k); if (k % 2) {sv.store(k);} else {sv = k;} res(STORE);}
+      w.stop = true;
+    });
+  for (int i = 0; i < w.readers; ++i) {
+    w.spawn([&](vh::Rng &) {
+        long long n = 0;
+        while (!w.stop) {inv(LOAD); long long v = (++n % 2) ? sv.load() : static_cast<long long>(sv); res(LOAD, v, 0);}
       });
   }
   w.join();
@@ -362,7 +382,7 @@ int main(int argc, char ** argv)
   Work w;
   w.kind = argv[1]; w.readers = std::atoi(argv[2]); w.ops = std::atoll(argv[3]); w.seed = std::strtoull(argv[4], nullptr, 10);
   const std::string & k = w.kind;
-  if (k == "sv") {runSV(w);} else if (k == "sov") {runSOV(w);} else if (k == "avg") {runStats<OnlineAverage>(w, false);}
+  if (k == "sv") {runSV(w);} else if (k == "svw") {runSVW(w);} else if (k == "sov") {runSOV(w);} else if (k == "avg") {runStats<OnlineAverage>(w, false);}
   else if (k == "var") {runStats<OnlineVariance>(w, true);}
   else if (k == "ckeq") {runCheckup<CheckupEqualTo<double>>(w, "eq", true);}
   else if (k == "ckgt") {runCheckup<CheckupGreaterThan<double>>(w, "gt", true);}
